@@ -4,12 +4,12 @@ CONSTANTS
   Threads = {1}
   Deadlines = {0,1,2,3}
   MaxNow = 3
-  MaxSaves = 4
+  MaxSaves = 3
   Backend = "memory"
   Net = FALSE
   IntMax = 1000
   GcBatch = 2
   Bug = "none"
 CONSTRAINT Bounded
-INVARIANTS TypeOK LoadCorrect LoadExactSeq LiveKept HeldSound IndexConsistent
+INVARIANTS TypeOK LoadCorrect LiveKept HeldSound IndexConsistent
 PROPERTIES MemGcProgress FileGcComplete OnlyExpiredVanish
